@@ -11,66 +11,100 @@ COMMON_NOTE = ("Trusted: Verus+Z3; the contract vocabulary (prelude.rs) incl. re
                "re-entrancy and thread interleavings are NOT covered); closures total and deterministic; Clone faithful. ")
 
 CLAIMS = {
-    "C01": ("Closed-slot contracts (slot None => silent, terminal => slot None, at most one terminal per call) proved by Verus "
-            "on the real text of every shared observer handle and early-terminating operator under contract; by-value observers "
-            "rely on the typing argument (terminals consume self).",
-            "§4 C01", "Subjects and merge_all are not yet under contract in this check."),
-    "C02": ("Verus: Subscriber::unsubscribe empties the shared slot (then the C01 closed-slot clause gives silence); "
-            "ZipSubscription unsubscribes both parts.", "§4 C02",
-            "Scheduler-registered task handles, MultiSubscription and racing emitter threads are not covered by this check."),
-    "C03": ("Every single-input operator's observer methods and every basic source proved (Verus, unbounded) equal to a step "
-            "of its documented list semantics on a recording downstream, including 'no aggregate with an error'; derived "
-            "operators proved to be the documented compositions.", "§4 C03",
-            "take_last::complete (drain loop), collect::next (Extend), from_iter/repeat, create, defer are not in the Verus units."),
-    "C04": ("Step contracts for merge, zip, combine_latest (both macro instantiations), with_latest_from, sample, take_until "
-            "proved on the real text for arbitrary pre-states (unbounded queues); every interleaving is a sequence of such steps.",
-            "§4 C04", "skip_until and buffer(notifier) not yet under contract; aliasing of the two handles is assumed."),
+    "C01": ("Closed-slot contracts (slot None => silent and stays None; terminal => slot None; at most one terminal per call) "
+            "proved by Verus on the real text of every shared observer handle: slot cells, subscribers, Subject/SubjectThreads "
+            "(a terminated subject stays terminated), merge/zip/combine_latest/merge_all state, skip_until, buffer notifier, "
+            "delay/debounce/throttle; early terminators take/take_while/contains; lemmas closed_silent and "
+            "merge_one_terminal_last lift the per-call clauses to every history.  By-value observers rely on the typing "
+            "argument (terminals consume self).", "§4 C01",
+            "re-entrant calls from inside a callback; thread interleavings; operators not under contract (DESIGN §3)."),
+    "C02": ("Verus: unsubscribe of Subscriber, ZipSubscription, MultiSubscription (every part unsubscribed, late append torn "
+            "down), TaskHandle (keep_running cleared, produced subscription unsubscribed), FinalizerSubscription; scheduler "
+            "operators register every scheduled handle and the composite / handler cell they register in is part of the "
+            "subscription returned by actual_subscribe (delay, observe_on, debounce).  Known finding: throttle.", "§4 C02, §6",
+            "the racing emitter thread (lock-level interleavings); Remote::poll honouring keep_running is trusted; "
+            "SubscriptionGuard::drop and buffer_with_time's actual_subscribe are not under contract."),
+    "C03": ("Every single-input operator's observer methods and every basic source proved (Verus, unbounded) equal to one "
+            "step of its documented list semantics on a recording downstream, incl. 'no aggregate with an error'; builders "
+            "proved to be the documented compositions; lemma take_items.  Bounded (Kani, <= 3 items then any terminal): "
+            "from_iter/repeat, all, ignore_elements, count/sum/min/max, element_at/first_or/last_or, reduce.", "§4 C03",
+            "take_last::complete (drain loop) and collect::next (Extend) are trusted; create, average not under contract; "
+            "the Kani units are bounded and listed under bounded_checks, not counted as proved."),
+    "C04": ("Verus step contracts for merge, zip, combine_latest (both macro instantiations), with_latest_from, sample, "
+            "take_until, skip_until, buffer(notifier) for arbitrary pre-states (unbounded queues); lemma "
+            "zip_pairs_ith_items proves the i-th pairing for EVERY interleaving, merge_one_terminal_last the terminal rule; "
+            "actual_subscribe of merge/zip: fresh state, both inputs on one state.", "§4 C04",
+            "aliasing of the two handles is read off actual_subscribe (clones of one own(..)), not proved; interleaving "
+            "lemmas exist for zip and merge only."),
     "C05": ("Verus: InnerObserver/OutsideObserver of merge_all (both forms) proved against the counter/queue contract: running "
             "inners <= limit, FIFO of waiting inners, an inner completion starts the OLDEST waiting one or frees its slot, "
-            "downstream completes exactly when the outer stream is done and nothing runs or waits, first error closes the slot.",
-            "§4 C05", "The 3-line body of the deferred-subscription closure is not verified (rule R11); 'without panicking or "
-            "blocking' (dynamic borrow/lock re-entrancy) is outside the stand-in (one such defect was found by reading and fixed); "
-            "flatten/flat_map/concat_* are thin compositions over merge_all (builders not yet under contract)."),
+            "downstream completes exactly when the outer stream is done and nothing runs or waits, first error closes the slot; "
+            "Kani: the ten higher-order builders use the documented limit.", "§4 C05",
+            "the 3-line body of the deferred-subscription closure is not verified (rule R11); 'without panicking or blocking' "
+            "(dynamic borrow/lock re-entrancy) is outside the stand-in (one such defect was found by reading and fixed)."),
     "C06": ("Verus, unbounded in the number of subscribers: Subject/SubjectThreads next/error/complete/load/actual_subscribe/"
             "unsubscribe/is_closed/is_empty/len/retain proved on the real macro text (iterator adapters desugared by rule R9, "
             "SmallVec assumed to be a Vec) against 'exactly once, in list order, to everybody registered before the emission; "
-            "terminal once to every open unfinished subscriber; nothing after a terminal'.", "§4 C06",
-            "Thread interleavings and re-entrant calls from callbacks (borrow/lock acquisition) are outside the stand-in; "
+            "terminal once to every open unfinished subscriber; nothing after a terminal'; the real subscribers discharge the "
+            "Publisher contract.", "§4 C06",
+            "thread interleavings and re-entrant calls from callbacks (borrow/lock acquisition) are outside the stand-in; "
             "retain's completeness clause and the MutRef* variants (same macro text) are not separately proved."),
-    "C07": ("Verus with scheduler stand-ins: DelayObserver/ObserveOnObserver (both forms) schedule exactly one one-shot task per "
+    "C07": ("Verus with scheduler stand-ins: Delay/ObserveOn observers (both forms) schedule exactly one one-shot task per "
             "notification with the configured delay (None for observe_on) carrying (slot handle, payload), deliver nothing "
-            "synchronously, register the handle; delay forwards an error at once.", "§4 C07",
-            "Task run order (the scheduler) is a stated assumption; the _at builders and subscribe_on/delay_subscription are not in this check yet."),
-    "C08": ("Verus: the task bodies interval_task, timer_task, item_task, result_task emit exactly what the source promises "
-            "when the scheduler runs them.", "§4 C08",
-            "RepeatTask::poll / FutureTask::poll / stream driver polls and timer accuracy are not covered by this check yet."),
-    "C09": ("Verus: buffer contracts (never empty, flush at count, order kept, concatenation on completion) and sample's "
-            "take-once cell.", "§4 C09", "debounce/throttle/timed buffers are not yet under contract."),
-    "C19": ("Verus: TaskHandle::{unsubscribe,is_closed} for plain and subscribing tasks (cancellation clears keep_running and "
-            "drops/unsubscribes the stored result; closed only when the task has produced its value), value_handle.", "§4 C19",
-            "Remote::poll, OnceTask/RepeatTask/FutureTask::poll and the schedule() async block are not covered by this check yet (trusted)."),
+            "synchronously, register the handle; delay forwards an error at once; delay_subscription / subscribe_on are one "
+            "task on (source, observer); the _at builders store the time remaining until the instant.", "§4 C07",
+            "'whatever order the scheduler runs its ready tasks in' is NOT provable (nothing re-sequences the tasks): order "
+            "preservation assumes a FIFO scheduler (DESIGN §6); Instant/Duration are an assumed contract."),
+    "C08": ("Verus: the task bodies interval_task, timer_task, item_task, result_task; interval/timer actual_subscribe "
+            "schedule one repeating / one-shot task with the right period, delay and arguments; interval_at/timer_at compute "
+            "the remaining time.  Kani (bounded): RepeatTask::poll on a virtual clock (consecutive sequence numbers, one fresh "
+            "timer per accepted tick, never runs on a pending timer, retires when the task declines), FutureTask::poll, "
+            "from_stream / from_stream_result drivers over scripted streams.", "§4 C08",
+            "timer accuracy (futures_time::sleep) and executor behaviour are assumed; poll loops are bounded (3 ticks / 3 steps)."),
+    "C09": ("Verus: buffer contracts (never empty, flush at count, order kept, concatenation on completion), sample's "
+            "take-once cell, debounce (pending item replaced, previous task cancelled, one task per item with the window as "
+            "delay, flush on completion), throttle (window open iff handle not closed; leading/trailing/all edges; no item "
+            "twice), their task functions take the trailing cell, timed flush tasks retire when finished.", "§4 C09",
+            "the timed behaviour rests on the assumed scheduler semantics (a task fires at schedule time + delay unless cancelled)."),
     "C11": ("Verus: ConnectableObservable::actual_subscribe only joins the inner subject (no bound on the source type: typing "
-            "argument), connect subscribes the source with the subject.", "§4 C11",
-            "share()/RefCount and the subject itself are not yet under contract in this check."),
+            "argument), connect subscribes the source with the subject; ShareOp::actual_subscribe (both forms): the first "
+            "subscription joins, swaps Connectable->Connected and connects exactly then, later ones only join; "
+            "RefCountSubscription tears the subject down only when it reports empty; Subject::is_empty/len count live "
+            "subscribers.  Known finding: the connection's own subscription is dropped.", "§4 C11, §6",
+            "the subject is an abstract stand-in inside the share unit (its contract is proved in the subject unit)."),
     "C12": ("Verus: BehaviorSubject methods over an abstract inner-subject contract: value cell written before broadcast, "
             "subscriber gets the cell first, peek returns the cell, next_by(f) == next(f(peek())).", "§4 C12",
-            "Single-threaded clause only; the concurrent-producers clause is outside the family."),
-    "C13": ("Verus: builders return the plain operator value (source + parameters), actual_subscribe of every operator under "
-            "contract creates fresh initial state and subscribes the source with it, of_fn/start call their closure once on "
-            "subscription.", "§4 C13", "defer/from_iter/create handled elsewhere; independence of clones is an ownership argument."),
-    "C14": ("Verus with an assumed channel/atomic contract: what to_future / to_stream / complete_status observers put on the "
-            "channel or flag for every source history.", "§4 C14",
-            "The polling side (ObservableFuture::poll, poll_next, StatusFuture::poll) is not covered by this check."),
+            "single-threaded clause only; the concurrent-producers clause is outside the family."),
+    "C13": ("Verus: builders return the plain operator value (source + parameters); actual_subscribe of every operator under "
+            "contract creates fresh initial state and subscribes the source with it; of_fn/start call their closure once on "
+            "subscription; Kani: defer calls its supplier exactly once, on subscription.", "§4 C13",
+            "independence of clones is an ownership argument (no operator value holds a shared cell); create not under contract."),
+    "C14": ("Verus with an assumed channel/atomic contract: what the to_future / to_stream / complete_status observers put on "
+            "the channel or flag for every source history (store before wake).  Kani on the REAL futures channel / "
+            "AtomicWaker: to_future resolves to the documented outcome, to_stream yields every item and the error and then "
+            "ends (bounded: 2 items), StatusFuture::poll never returns Pending with the flag set and no wake-up delivered "
+            "(producer run at the hooked yield point).", "§4 C14",
+            "the all-interleavings claim is outside the family: only the one protocol obligation at the hooked yield point is decided."),
     "C15": ("Verus: FinalizerObserver/FinalizerSubscription: next leaves the callback cell alone; error/complete/unsubscribe "
             "call a still-present callback; FnOnce linearity gives at-most-once.", "§4 C15",
-            "The race between a terminating and an unsubscribing thread is outside the family."),
+            "the race between a terminating and an unsubscribing thread is outside the family; 'right after' (ordering "
+            "against the downstream terminal) is not expressed."),
     "C16": ("Verus: is_finished() of every observer under contract returns the property's definition of finished (slot closed "
-            "or downstream finished).", "§4 C16", "Producers (interval_task, RepeatTask, from_iter) not yet in this check."),
-    "C17": ("Verus: is_closed() => dead for Subscriber, ZipSubscription, (), FinalizerSubscription, BehaviorSubject; "
-            "unsubscribe makes the subscriber dead.", "§4 C17", "MultiSubscription, TaskHandle, RefCount not yet covered."),
-    "C18": ("Every unit that exists in a local and a thread-safe form is extracted in BOTH forms and proved against ONE "
-            "functional contract (two refinements of one deterministic transducer are trace-equal on single-threaded histories).",
-            "§4 C18", "Units not under contract in both forms are listed in evidence as not covered."),
+            "or downstream finished), incl. notifier observers; interval_task / emit_buffer decline when finished; Kani: "
+            "from_iter stops pulling, RepeatTask retires when its task declines.", "§4 C16",
+            "from_stream drivers do not consult is_finished (not claimed); chains are covered by the per-observer forwarding clause."),
+    "C17": ("Verus: is_closed() => dead for Subscriber, ZipSubscription, (), MultiSubscription, TaskHandle (both kinds), "
+            "FinalizerSubscription, RefCountSubscription, BehaviorSubject, subjects; unsubscribe makes them dead; a part "
+            "appended to an unsubscribed composite is unsubscribed at once.", "§4 C17",
+            "'never again false' across clones is the closed-slot argument; debounce's handler cell reports closed while empty (DESIGN §6)."),
+    "C18": ("Every unit that exists in a local and a thread-safe form is extracted in BOTH forms (macro instantiations found at "
+            "the real invocation sites) and proved against ONE functional contract; Kani: the thread-safe higher-order "
+            "builders use the same limits as the local ones.", "§4 C18",
+            "box_it, finalize builders and units not under contract in both forms are not covered."),
+    "C19": ("Verus: TaskHandle::{unsubscribe,is_closed} for plain and subscribing tasks, value_handle; Kani: OnceTask::poll "
+            "(runs once, arguments gone), FutureTask::poll, RepeatTask::poll (bounded).", "§4 C19",
+            "Remote::poll (catch_unwind: Kani times out) and the schedule() async block (delay awaited before the task) are TRUSTED; "
+            "executor behaviour is assumed."),
 }
 
 NOT_APPLICABLE = {
@@ -97,10 +131,10 @@ def main():
                 thorough_cmd="./check %s thorough" % pid,
                 evidence_file="/verif/evidence/%s.json" % pid,
                 replay_cmd_template="cat {path}",
-                engine="verus-extract",
+                engine="verus-extract + kani-real-crate",
                 level_claimed=dict(category="proof", text=text, design_ref="DESIGN.md " + ref),
                 level_note=COMMON_NOTE + "Not covered: " + gap,
-                technique="contract-based deductive verification (Verus on mechanically extracted real functions)",
+                technique="contract-based deductive verification: Verus on mechanically extracted real functions; Kani step harnesses on the real crate",
             ))
         else:
             na.append(dict(property_id=pid, reason=NOT_APPLICABLE.get(pid, PENDING)))
@@ -111,7 +145,9 @@ def main():
         hooks=dict(guard="rxrust_verif", enable="RUSTFLAGS='--cfg rxrust_verif' (set by engine/krun.py for every Engine-K run; one named yield point in StatusFuture::poll)",
                    baseline_off_cmd="cd /repo && cargo test --workspace --no-fail-fast --offline",
                    source_commits=hooks_commits, add_only=True),
-        engines=[dict(name="verus-extract", path="engine/", serves_properties=sorted(CLAIMS),
+        engines=[dict(name="kani-real-crate", path="engine/krun.py", serves_properties=["C03", "C05", "C08", "C13", "C14", "C16", "C18", "C19"],
+                      kind_free_text="scratch copy of /repo + harness modules of contracts/kani appended as #[cfg(kani)] child modules; cargo kani; counterexamples replayed natively"),
+                 dict(name="verus-extract", path="engine/", serves_properties=sorted(CLAIMS),
                       kind_free_text="extract.py pulls the real function text out of /repo on every run, splices the contracts of "
                                      "contracts/units/*.vt, vrun.py runs `verus` per unit (+ vacuity canary), check.py decides per property")],
         checks=checks,
